@@ -194,6 +194,26 @@ MUTANTS = [
     m('C19', 'weights_not_exponentiated', (PI, "    return np.exp(logP)\n", "    return logP\n")),
     m('C19', 'accepts_any_step_after_first_reject', (PI, "        if loss - new_loss >= 0.5*alpha*dL.dot(P-Q):", "        if begun or loss - new_loss >= 0.5*alpha*dL.dot(P-Q):")),
     m('C19', 'public_rows_sorted', (PI, "        return Dataset(self.public_data.df, self.public_data.domain, self.weights)", "        return Dataset(self.public_data.df.sort_values(list(self.public_data.domain.attrs)).reset_index(drop=True), self.public_data.domain, self.weights)")),
+    # ---- C05 ------------------------------------------------------------
+    m('C05', 'revert_F6_mwem_bounded_selection', (MWEM, "        ax = worst_approximated(workload_answers, est, candidates, exp_eps, bounded=bounded)", "        ax = worst_approximated(workload_answers, est, candidates, exp_eps)")),
+    m('C05', 'mst_sigma_from_full_rho', (MST, "    sigma = np.sqrt(3/(2*rho))", "    sigma = np.sqrt(1/(2*rho))")),
+    m('C05', 'mst_select_gets_full_rho', (MST, "    cliques = select(data, rho/3.0, log1)", "    cliques = select(data, rho, log1)")),
+    m('C05', 'mst_em_coef_one', (MST, "    coef = 1.0 if monotonic else 0.5\n    scores = coef*eps/sensitivity*q", "    coef = 1.0\n    scores = coef*eps/sensitivity*q")),
+    m('C05', 'mwem_marginal_sensitivity_dropped', (MWEM, "        marginal_sensitivity = np.sqrt(2) if bounded else 1.0", "        marginal_sensitivity = 1.0")),
+    m('C05', 'aim_ledger_forgets_selection', (AIM, "            rho_used += 1.0/8 * epsilon**2 + 0.5/sigma**2", "            rho_used += 0.5/sigma**2")),
+    m('C05', 'aim_initial_measurements_not_charged', (AIM, "        rho_used = len(oneway)*0.5/sigma**2", "        rho_used = 0.5/sigma**2")),
+    m('C05', 'adagrid_step3_sigma_without_count', (AG, "    step3_sigma = np.sqrt(len(step2_queries)) * np.sqrt(0.5 / rho_step_3)", "    step3_sigma = np.sqrt(0.5 / rho_step_3)")),
+    m('C05', 'adagrid_select_eps_per_edge', (AG, "    epsilon = np.sqrt(8 * rho / (r - 1))", "    epsilon = np.sqrt(8 * rho)")),
+    m('C05', 'mwem_laplace_eps_not_split', (MWEM, "        eps_per_round = epsilon / rounds", "        eps_per_round = epsilon / max(1, rounds - 1)")),
+    # ---- C06 ------------------------------------------------------------
+    m('C06', 'mwem_total_from_data', (MWEM, "    total = data.records if bounded else None", "    total = data.records")),
+    m('C06', 'mst_threshold_on_true_count', (MST, "    for Q, y, sigma, proj in measurements:\n        col = proj[0]\n        sup = y >= 3*sigma", "    for Q, y, sigma, proj in measurements:\n        col = proj[0]\n        sup = (y >= 3*sigma) | (data.project(proj).datavector() > 0)")),
+    m('C06', 'aim_engine_gets_true_answers', (AIM, "            y = x + self.gaussian_noise(sigma, n)\n            measurements.append((Q, y, sigma, cl))", "            y = x + self.gaussian_noise(sigma, n)\n            measurements.append((Q, x, sigma, cl))")),
+    m('C06', 'aim_sigma_depends_on_records', (AIM, "        sigma = np.sqrt(rounds / (2*0.9*self.rho))", "        sigma = np.sqrt(rounds / (2*0.9*self.rho)) * (1 + 1e-3*(data.records % 2))")),
+    m('C06', 'adagrid_plausibility_from_truth', (AG, "                domain.project(cl), est >= step1_sigma * threshold", "                domain.project(cl), (est >= step1_sigma * threshold) | (Q1.T @ (Q1 @ mu) > 0)")),
+    m('C06', 'mst_candidates_filtered_by_true_weight_gt1', (MST, "        candidates = [e for e in candidates if not ds.connected(*e)]\n        wgts", "        candidates = [e for e in candidates if not ds.connected(*e)]\n        candidates = [e for e in candidates if weights[e] > 1.0] or candidates\n        wgts")),
+    m('C06', 'mwem_rounds_from_records', (MWEM, "    if rounds is None:\n        rounds = len(data.domain)", "    if rounds is None:\n        rounds = len(data.domain) + (1 if data.records > 100 else 0)")),
+    m('C06', 'synth_rows_from_true_count', (MST, "    synth = est.synthetic_data()", "    synth = est.synthetic_data(rows=data.records)")),
 ]
 
 
